@@ -279,7 +279,7 @@ class Round:
                     rec["verdicts"]["compile"] = "fail" if (ds or rt) else "ok"
                     fw = g.field_words(j["shape"]) if "identifiers" in j["shape"]["constructs"] else ()
                     for f, line, msg in ds:
-                        rec["diags"].append(("compile", g.norm_diag(g.blank_fields(msg, fw), names, types), "%s: %s" % (f, msg), "package"))
+                        rec["diags"].append(("compile", g.norm_diag(g.blank_fields(msg, fw), names, types) + "@" + file_role("go", f), "%s: %s" % (f, msg), "package"))
                     for f, line, msg in rt:
                         rec["diags"].append(("compile", g.norm_diag(msg, names, types), "%s: %s" % (f, msg), "runtime"))
         self.timing["go_build_s"] = round(time.time() - t0, 2)
@@ -299,7 +299,7 @@ class Round:
                         blame = fr.get("where") or fr["file"]
                         parts = blame.split(os.sep)          # k0001/models/s07j.py | k0001/cog/encoder.py
                         stem = os.path.splitext(parts[-1])[0]
-                        target = per_pkg[stem] if (len(parts) >= 3 and parts[1] in ("models", "builders") and stem != "__init__") else runtime
+                        target = per_pkg[stem] if (len(parts) >= 3 and parts[-2] in ("models", "builders") and stem != "__init__") else runtime
                         target.append((clause, fr[clause], fr["file"]))
                 for jid in by_root[("python", k)]:
                     j, rec = self.jobs[jid], self.records[jid]
@@ -311,7 +311,7 @@ class Round:
                         fw = g.field_words(j["shape"]) if "identifiers" in j["shape"]["constructs"] else ()
                         for clause, msg, f in items:
                             rec["verdicts"][clause] = "fail"
-                            cls = g.norm_diag(g.blank_fields(msg, fw), names, types)
+                            cls = g.norm_diag(g.blank_fields(msg, fw), names, types) + ("@" + file_role("python", f) if scope == "package" else "")
                             if (clause, cls) not in seen:
                                 seen.add((clause, cls))
                                 rec["diags"].append((clause, cls, "%s: %s" % (f, msg), scope))
@@ -343,7 +343,7 @@ class Round:
                     for scope, items in (("package", ds), ("runtime", rt)):
                         fw = g.field_words(j["shape"]) if "identifiers" in j["shape"]["constructs"] else ()
                         for f, msg in items:
-                            cls = g.norm_diag(g.blank_fields(msg, fw), names, types)
+                            cls = g.norm_diag(g.blank_fields(msg, fw), names, types) + ("@" + file_role("java", f) if scope == "package" else "")
                             if cls not in seen:
                                 seen.add(cls)
                                 rec["diags"].append(("compile", cls, "%s: %s" % (f, msg), scope))
@@ -359,6 +359,43 @@ class Round:
                     scope = "package" if j["pkg"] in f.lower() else "shared"
                     rec["diags"].append(("placeholder", g.norm_diag(text), "%s: %s" % (f, line), scope))
         self.timing["placeholder_s"] = round(time.time() - t0, 2)
+
+
+_FAMILY = (("union-scalars", "union"), ("disjunction-scalars", "union"), ("dunion", "dunion"), ("disjunction-refs", "dunion"),
+           ("disjunction-top-level", "dunion"), ("disjunction-with-null", "nullable"), ("map-of", "map"), ("map-keys", "map"), ("array-of", "array"),
+           ("enum", "enum"), ("constref", "const"), ("const", "const"), ("defaults-typed", "default"), ("default", "default"),
+           ("nullable", "nullable"), ("optional", "optional"), ("cross-package", "ref"), ("ref", "ref"), ("recursive", "recursive"),
+           ("top-level-kinds", "alias"), ("alias", "alias"), ("named-collections", "named-collections"), ("identifiers", "identifiers"),
+           ("time", "time"), ("any", "any"), ("intersection", "intersection"), ("anon-struct", "anon-struct"), ("null-type", "null"),
+           ("type-list", "type-list"), ("scalar-kinds", "scalars"), ("int-kinds", "scalars"), ("scalars", "scalars"), ("string-bounds", "bounds"),
+           ("bounds", "bounds"), ("kitchen-sink", "composite"), ("collections-of-collections", "composite"))
+
+
+def family(shape):
+    """The family of a shape (what it is a shape OF): the construct part of a signature. It only depends on the shape itself,
+    so that repairing a defect in one family does not rename the signatures of the others."""
+    n = shape["name"][3:] if shape["name"].startswith("ir-") else shape["name"]
+    for prefix, fam in _FAMILY:
+        if n.startswith(prefix):
+            return fam
+    return n
+
+
+def file_role(lang, path):
+    """which generator wrote the file a diagnostic points at: part of the diagnostic class, so that the same compiler message at
+    two different sites (types vs builders) is not one group"""
+    b = os.path.basename(path)
+    if lang == "go":
+        return "builder" if b.endswith("_builder_gen.go") else "converter" if b.endswith("_converter_gen.go") else "types" if b == "types_gen.go" else "other"
+    if lang == "python":
+        d = os.path.basename(os.path.dirname(path))
+        return d if d in ("models", "builders") else "other"
+    if lang == "java":
+        for suffix, role in (("Builder.java", "builder"), ("Converter.java", "converter"), ("Deserializer.java", "deserializer"), ("Serializer.java", "serializer")):
+            if b.endswith(suffix):
+                return role
+        return "types"
+    return "other"
 
 
 def violated(job, rec):
@@ -454,6 +491,12 @@ def run(ctx):
         j = make_job(shape, fmt, cfg)
         jobs.setdefault(j["id"], j)
 
+    alone = {}
+    for lang in g.LANGS:
+        flags_ = [p for p in params_of(lang, lattice[lang]) if p not in g.OUTPUT_KINDS and p != "alt_paths"]
+        want = [(("types",), (fl,)) for fl in flags_]
+        want += [(("types",), ("generate_json_marshaller", "generate_strict_unmarshaller")), (("builders", "types"), ()), (("builders", "converters", "types"), ())]
+        alone[lang] = [index[lang][k] for k in ((tuple(sorted(o)), tuple(sorted(n))) for o, n in want) if k in index[lang]]
     per_unit = {"go": 4, "python": 2, "java": 2, "typescript": 2, "php": 2, "jsonschema": 1, "openapi": 1}
     for lang in g.LANGS:
         rows = arrays[lang]
@@ -465,6 +508,10 @@ def run(ctx):
                 # the anchor row (every output kind and every generation flag on) is run for every unit in every seed
                 if rows[0] not in chosen:
                     chosen = [rows[0]] + chosen
+                # every generation flag ALONE (audit class 11): an import or helper that another feature also provides is only
+                # missed when that feature is on; one rendering per shape is enough for this axis
+                if f in ("jsonschema", "ir"):
+                    chosen = chosen + [c for c in alone.get(lang, []) if c not in chosen]
             else:
                 chosen = rows
             for c in chosen:
@@ -489,13 +536,17 @@ def run(ctx):
             for clause in violated(j, rec):
                 if clause == "silent-unsupported":
                     dc = "success" if rec["outcome"] == "files" else "panic:" + panic_class(rec["why"])
-                    groups[(j["lang"], clause, dc, "package")].append((jid, rec["why"].split("\n")[0][:300] or "the run reported success and wrote %d files" % len(rec["files"])))
+                    groups[(j["lang"], clause, dc, "package", "-")].append((jid, rec["why"].split("\n")[0][:300] or "the run reported success and wrote %d files" % len(rec["files"])))
                     continue
                 seen = set()
                 for c, cls, detail, scope in rec["diags"]:
                     if c == clause and (cls, scope) not in seen:
                         seen.add((cls, scope))
-                        groups[(j["lang"], clause, cls, scope)].append((jid, detail))
+                        groups[(j["lang"], clause, cls, scope, family(j["shape"]) if scope == "package" else scope)].append((jid, detail))
+        # a composite shape only speaks when no single-construct shape shows the same diagnostic
+        for key in [k for k in groups if k[4] == "composite"]:
+            if any(k[:4] == key[:4] and k[4] != "composite" for k in groups):
+                del groups[key]
         return groups
 
     groups = collect(main)
@@ -504,7 +555,7 @@ def run(ctx):
         rec = rd.records.get(jid)
         if rec is None:
             return None
-        lang, clause, cls, scope = key
+        lang, clause, cls, scope = key[:4]
         if clause == "silent-unsupported":
             return clause in violated(rd.jobs[jid], rec)
         if rec["outcome"] == "files" and rec["verdicts"][clause] == "na":
@@ -575,50 +626,22 @@ def run(ctx):
             out = {p for p, v in lits if p in g.OUTPUT_KINDS} | ({"types"} if need_types else set())
             on = {p for p, v in lits if p not in g.OUTPUT_KINDS}
             minimal[key] = index[lang].get((tuple(sorted(out)), tuple(sorted(on)))) or wj["cfg"]
-    # ---- attribution, phase B: which constructs (every shape under the minimal configuration of the group)
-    spread = {}
-    for key, c in minimal.items():
-        for s in shapes:
-            for f in sc.FORMATS:
-                j2 = make_job(s, f, c)
-                spread[j2["id"]] = j2
-        for s in irshapes:
-            j2 = make_job(s, "ir", c)
-            spread[j2["id"]] = j2
+    # ---- the construct part is the family of the failing shapes; groups are per family, each with its own smallest configuration
     classes = {}
-    if spread:
-        rb = Round(ctx, "spread", list(spread.values()), scanner).run()
-        rounds.append(rb)
-        core.log("spread round: %d runs %s" % (len(spread), rb.timing))
-        for key, c in minimal.items():
-            failing = []
-            for s in shapes + irshapes:
-                fmts = sc.FORMATS if s["kind"] == "schema" else ("ir",)
-                if any(fails(rb, job_id(s, f, c), key) for f in fmts):
-                    failing.append(s)
-            if not failing:
-                failing = [witness[key]["shape"]]       # needs more than the minimal configuration: keep the witness
-            single = [s for s in failing if "composite" not in s["constructs"]] or failing
-            common = set(single[0]["constructs"])
-            for s in single[1:]:
-                common &= set(s["constructs"])
-            if key[3] != "package":
-                cc = key[3]
-            elif common:
-                cc = "+".join(sorted(common))
-            elif len(single) >= 8:
-                cc = "many-shapes"
-            else:
-                cc = single[0]["name"]
-            classes[key] = (cc, [s["name"] for s in failing])
+    fail_fmt = {}
+    for key in minimal:
+        names_ = sorted({main.jobs[jid]["shape"]["name"] for jid, _ in groups[key]})
+        classes[key] = ([key[4]], names_)
 
     # ------------------------------------------------------------------ report
     def lit_text(lits):
         return "+".join(sorted(("" if v else "!") + g.SHORT.get(p, p) for p, v in lits)) or "any-config"
 
     group_info = []
+    pending = []
+    by_name = {s_["name"]: s_ for s_ in shapes + irshapes}
     for key in sorted(groups):
-        lang, clause, cls, scope = key
+        lang, clause, cls, scope = key[:4]
         items = groups[key]
         jid0, detail0 = min(items, key=lambda x: order[x[0]])
         j0 = main.jobs[jid0]
@@ -628,17 +651,42 @@ def run(ctx):
             failing_shapes = sorted({main.jobs[j]["shape"]["name"] for j, _ in items})
             lt = "any-config"
         else:
-            cc, failing_shapes = classes.get(key, (j0["shape"]["name"], [j0["shape"]["name"]]))
+            ccs, failing_shapes = classes.get(key, ([family(j0["shape"])], [j0["shape"]["name"]]))
             lt = lit_text(literals.get(key, []))
-            sig = "C02/%s/%s/%s/%s+%s" % (lang, clause, cls, lt, cc)
+            sigs = ["C02/%s/%s/%s/%s+%s" % (lang, clause, cls, lt, cc) for cc in ccs]
+            sig = sigs[0]
         rp = {"shape": j0["shape"]["name"], "format": j0["fmt"], "lang": lang, "out": j0["cfg"]["out"], "on": j0["cfg"]["on"],
               "clause": clause, "diag": cls, "signature_hint": sig, "detail": detail0,
               "input": j0.get("text") or j0["shape"].get("schemas"), "outcome": main.records[jid0]["outcome"]}
         what = "%s: %s [%s; shape %s as %s; out=%s on=%s; %d run(s); also fails on shapes %s]" % (
             clause, detail0[:260], lt, j0["shape"]["name"], j0["fmt"], ",".join(j0["cfg"]["out"]), ",".join(j0["cfg"]["on"]) or "-", len(items),
             ",".join(failing_shapes[:8]))
-        ctx.fail(sig, what, rp)
-        group_info.append({"signature": sig, "runs": len(items), "example": detail0[:300], "shapes": failing_shapes[:12]})
+        for sig_ in (sigs if clause != "silent-unsupported" else [sig]):
+            rp_ = dict(rp)
+            rp_["signature_hint"] = sig_
+            fam_ = sig_.rsplit("+", 1)[-1]
+            own = [n for n in failing_shapes if family(by_name.get(n, {"name": n})) == fam_] or failing_shapes
+            if by_name.get(own[0]) and own[0] != rp_["shape"] and clause != "silent-unsupported":
+                rp_["shape"] = own[0]
+                rp_["format"] = fail_fmt.get((key, own[0])) or ("ir" if by_name[own[0]]["kind"] == "ir" else "jsonschema")
+                rp_["out"], rp_["on"] = (minimal.get(key) or j0["cfg"])["out"], (minimal.get(key) or j0["cfg"])["on"]
+            pending.append(((lang, clause, cls, lt if clause != "silent-unsupported" else "-"), sig_, what, rp_,
+                            {"signature": sig_, "runs": len(items), "example": detail0[:300], "shapes": own[:12]}))
+    # a diagnostic that more than four families show under the same flags is one defect of the generator, not five
+    per_base = collections.defaultdict(list)
+    for item in pending:
+        per_base[item[0]].append(item)
+    for base, items_ in sorted(per_base.items()):
+        if len(items_) > 4 and base[1] != "silent-unsupported":
+            _, sig_, what, rp_, info = items_[0]
+            sig_ = sig_.rsplit("+", 1)[0] + "+many-shapes"
+            rp_ = dict(rp_, signature_hint=sig_)
+            ctx.fail(sig_, what, rp_)
+            group_info.append(dict(info, signature=sig_, shapes=sorted({n for it in items_ for n in it[4]["shapes"]})[:12]))
+            continue
+        for _, sig_, what, rp_, info in items_:
+            ctx.fail(sig_, what, rp_)
+            group_info.append(info)
 
     # ------------------------------------------------------------------ trace: TLC recomputes both implications
     tdir = ctx.sub("trace")
@@ -722,8 +770,10 @@ def run(ctx):
             vac.append("toolchain:" + k)
     if not any(v for k, v in unsupported.items()):
         vac.append("no run with an inexpressible construct")
-    if vac:
+    if vac and not ctx.failures:
         raise core.Inconclusive("vacuous: never exercised: %s" % vac[:12])
+    if vac:      # observed violations are never swallowed by the vacuity gate (audit class 15): they are reported, the gap is noted
+        ctx.notes.append("vacuity gate not met (%s) - reported with the violations instead of exit 2" % vac[:6])
     pairs_full = 0
     if not quick:
         for lang in g.LANGS:
